@@ -18,6 +18,7 @@ import (
 
 	"github.com/daeuniverse/dae/common"
 	"github.com/daeuniverse/dae/common/assets"
+	"github.com/daeuniverse/dae/common/consts"
 	"github.com/daeuniverse/dae/common/netutils"
 	componentdns "github.com/daeuniverse/dae/component/dns"
 	"github.com/daeuniverse/dae/component/routing"
@@ -126,7 +127,10 @@ func NewWithOption(log *logrus.Logger, global *config.Global, dnsCfg *config.Dns
 	if len(requestProgram.Rules) == 0 &&
 		len(requestProgram.SubscriptionRules) == 0 &&
 		len(requestProgram.NodeRules) == 0 &&
-		len(requestProgram.SubNodeRules) == 0 {
+		len(requestProgram.SubNodeRules) == 0 &&
+		requestFallbackIsPassthrough(requestProgram.Fallback) {
+		// Without any rule every lookup gets the fallback; only when the fallback hands the
+		// question to the base resolver anyway is that the same as having no router at all.
 		return nil, nil
 	}
 
@@ -174,6 +178,19 @@ func NewWithOption(log *logrus.Logger, global *config.Global, dnsCfg *config.Dns
 		return nil, err
 	}
 	return router, nil
+}
+
+// requestFallbackIsPassthrough reports whether the request fallback leaves dae's own lookups to the
+// base resolver ("asis" and "reject" are both pass-through for them, see selectUpstream).
+func requestFallbackIsPassthrough(fallback config.FunctionOrString) bool {
+	if fallback == nil {
+		return true
+	}
+	f, err := config.ParseFunctionOrString(fallback)
+	if err != nil {
+		return false // let the request matcher builder report it
+	}
+	return f.Name == consts.DnsRequestOutboundIndex_AsIs.String() || f.Name == consts.DnsRequestOutboundIndex_Reject.String()
 }
 
 func (r *Router) initUpstreams(rawUpstreams []config.KeyableString) error {
